@@ -11,7 +11,7 @@ import itertools
 from sim import devices
 from sim.canon import Log, dec_table, enc_table, canon_row, canon_cell
 from sim.catalogue import RECIPES, NAMES, World, _csv_bytes
-from sim.core import outcome, draw_config
+from sim.core import outcome, draw_config, not_a_harness_bug
 from sim.devices import LongTable, SimTable, PoisonedTail
 from sim.gen import gen_table, gen_sorted_table, sorted_row
 from sim.loader import load_petl
@@ -216,7 +216,7 @@ def _lookahead(stack):
     la = sum(k[1] for k in kinds)
     if any(k[0] == 'filter-end' for k in kinds):
         return 'filter-end', la
-    if any(k[0] == 'filter' for k in kinds):
+    if any(k[0] in ('filter', 'contract') for k in kinds):
         return 'filter', la
     return 'map', la
 
@@ -230,7 +230,7 @@ def _header_cost(stack):
         st = RECIPES[n].stream
         if st is None:
             return 10 ** 9
-        if st[0] in ('filter', 'filter-end') and need > 0:
+        if st[0] in ('filter', 'filter-end', 'contract') and need > 0:
             return 10 ** 9
         need += st[1]
     return need
@@ -388,7 +388,7 @@ def _one_length(e, case, total, log, sb, poison):
                 if st is None:
                     below = 10 ** 9
                     break
-                if st[0] in ('filter', 'filter-end') and below > 0:
+                if st[0] in ('filter', 'filter-end', 'contract') and below > 0:
                     below = 10 ** 9
                     break
                 below += st[1]
@@ -515,6 +515,32 @@ def _one_length(e, case, total, log, sb, poison):
                                    '%d; bound %d)'
                                    % (tid, d, pulls[tid][i], i, period,
                                       bound))
+        kinds_ = [RECIPES[n].stream for n, _ in stack]
+        if all(k is not None for k in kinds_) and \
+                any(k[0] == 'contract' for k in kinds_) and \
+                all(k[0] in ('contract', 'map') for k in kinds_):
+            # n input rows make one output row (unflatten): a consumer that
+            # took d rows needs n * (d + 1) input rows and a look-ahead, not
+            # a number that grows faster than d
+            fac_ = 1
+            for k in kinds_:
+                if k[0] == 'contract':
+                    fac_ *= k[2]
+            for ti, c in enumerate(cons):
+                tid = 'c%d' % ti
+                if c['kind'] in LOOKLIKE + ('header', 'fieldnames'):
+                    continue
+                d, done_ = res.get(tid, (0, True))
+                for i in streamed:
+                    bound = (2 if c['kind'] in TWICE else 1) * (
+                        fac_ * (max(d, _demand(c)) + 2) + la)
+                    if pulls[tid][i] > bound and total > bound + 50:
+                        raise _Bad('pulls-exceed-bound',
+                                   'consumer %s obtained %d rows of a view '
+                                   'that makes one row out of at most %d, '
+                                   'but pulled %d data rows from source %d '
+                                   '(bound %d)' % (tid, d, fac_,
+                                                   pulls[tid][i], i, bound))
         sw = getattr(rec, 'stops_with', None)
         if sw is not None and len(stack) == 1:
             # a merge of sorted inputs that yields nothing once input `sw` has
@@ -692,7 +718,7 @@ def run_case(case):
             except PoisonedTail as ex:
                 raise _Bad('poisoned-tail-reached', str(ex))
             except Exception as ex:
-                why = type(ex).__name__
+                why = type(not_a_harness_bug(ex)).__name__
             if why is not None:
                 gc.collect()
                 return outcome('trivial', digest=log.hexdigest(),
